@@ -8,6 +8,7 @@ import (
 	"go/types"
 	"os"
 	"sort"
+	"strconv"
 	"strings"
 
 	"golang.org/x/tools/go/ssa"
@@ -84,6 +85,15 @@ func (x *ctx) callValue(st *state, fr *frame, fnv val, args []val, c *ssa.CallCo
 	if fnv.recv != nil && fnv.fn == nil {
 		x.fail("interface method value call not supported")
 	}
+	if fnv.fn == nil && fnv.t.s != "" {
+		// a function value read back from memory: the closure that was stored there (syntactically forwarded loads only)
+		if fv, ok := x.fnVals[fnv.t.s]; ok {
+			fnv = fv
+			if fnv.cb != nil {
+				return x.callbackCall(st, fr, fnv.cb, args, rt)
+			}
+		}
+	}
 	if fnv.fn == nil {
 		// unknown function value: field-specific model or the user-callback rule
 		return x.unknownCall(st, fr, fnv, args, c, rt)
@@ -152,6 +162,26 @@ func (x *ctx) callStatic(st *state, fr *frame, callee *ssa.Function, bind []val,
 		if con.Flags["inline"] {
 			return x.inline(st, fr, callee, bind, args)
 		}
+		if con.Delegates != "" && callee.Blocks != nil {
+			// a delegating wrapper (verified on its own to be exactly one call of its target) is executed through its
+			// body, so that the caller gets the target's contract; for the caller's own `delegates` clause it counts as
+			// one call of the wrapper
+			n0 := len(st.dcalls)
+			chain := x.con != nil && (x.con.Delegates == con.Target || x.inheriting > 0)
+			if chain {
+				x.inheriting++ // the target delegates further: the whole chain's preconditions are inherited
+			}
+			outs := x.inline(st, fr, callee, bind, args)
+			if chain {
+				x.inheriting--
+			}
+			for i := range outs {
+				if len(outs[i].st.dcalls) >= n0 {
+					outs[i].st.dcalls = append(append([]callRec(nil), outs[i].st.dcalls[:n0]...), callRec{target: con.Target, args: args, ret: outs[i].ret})
+				}
+			}
+			return outs
+		}
 		return x.contractCall(st, fr, con, callee, args, rt)
 	}
 	if callee.Blocks == nil {
@@ -208,10 +238,24 @@ func (x *ctx) valEq(a, b val) string {
 		return and(parts...)
 	}
 	if a.t.s == "" || b.t.s == "" {
-		if a.fn != nil && b.fn != nil {
+		if a.fn != nil && b.fn != nil && len(a.bind) == 0 && len(b.bind) == 0 {
 			return fmt.Sprint(a.fn == b.fn)
 		}
-		return "false"
+		// function values compare by their references (a function value stored in memory is read back as its reference)
+		isF := func(v val) bool { return v.fn != nil || v.cb != nil }
+		if (isF(a) || a.t.s != "") && (isF(b) || b.t.s != "") {
+			ta, tb := a.t, b.t
+			if ta.s == "" {
+				ta = x.asTerm(a, nil)
+			}
+			if tb.s == "" {
+				tb = x.asTerm(b, nil)
+			}
+			if ta.srt.name == tb.srt.name {
+				return eq(ta, tb)
+			}
+		}
+		x.fail("same(): values are not comparable")
 	}
 	if a.t.srt.name != b.t.srt.name {
 		x.fail("same(): srtT mismatch %s vs %s", a.t.srt.name, b.t.srt.name)
@@ -798,24 +842,45 @@ func (x *ctx) contractCall(st *state, fr *frame, con *Contract, callee *ssa.Func
 		}
 	}
 	// requires
+	if x.spec == 0 && x.con != nil && len(x.con.CallsOnly) > 0 && con.Kind != "iface" {
+		// calls-only: the functions under contract the verified function may call (directly or from inlined helpers)
+		allowed := false
+		for _, t := range x.con.CallsOnly {
+			if t == con.Target {
+				allowed = true
+			}
+		}
+		if !allowed {
+			x.oblige(st, "calls-only", strings.Join(x.con.CallsOnly, ","), site, "false", "call of "+con.Target)
+		}
+	}
+	// a function that `delegates` to this callee inherits the callee's preconditions by definition
+	inherits := x.con != nil && (x.con.Delegates == con.Target || x.inheriting > 0)
 	for _, cl := range con.Requires {
 		g := x.clauseL1(st, con, cl, env)
-		if x.spec == 0 {
+		if x.spec == 0 && !inherits {
 			x.oblige(st, "call-requires", cl.Tag(), site, g.t.s, "")
 		}
 		st.assume(g.t.s)
 	}
 	pcStart := len(st.pc)
+	// ghost log of calls of this function: number of calls and the scalar arguments of the last call. The log is
+	// written again after the callee's footprint has been havocked: a (non-recursive) callee never calls itself, so
+	// even `modifies *` leaves its own call log exactly one entry longer.
+	writeCounted := func() {}
 	if con.Flags["counted"] && x.spec == 0 {
-		// ghost log of calls of this function: number of calls and the scalar arguments of the last call
 		short := con.Obj.Name()
 		cnt := x.ghostGet(st, "ghost_calls_"+short, nil, bvSort(64), nil)
-		x.ghostWrite(st, "ghost_calls_"+short, nil, x.binop(token.ADD, cnt, mkbv(1, 64), types.Typ[types.Int]))
-		for i, a := range args {
-			if a.t.s != "" && i < len(con.Params) {
-				x.ghostWrite(st, "ghost_last_"+short+"_"+con.Params[i], nil, a.t)
+		next := x.binop(token.ADD, cnt, mkbv(1, 64), types.Typ[types.Int])
+		writeCounted = func() {
+			x.ghostWrite(st, "ghost_calls_"+short, nil, next)
+			for i, a := range args {
+				if a.t.s != "" && i < len(con.Params) {
+					x.ghostWrite(st, "ghost_last_"+short+"_"+con.Params[i], nil, a.t)
+				}
 			}
 		}
+		writeCounted()
 	}
 	pre := st.clone()
 	if x.spec == 0 && (len(con.Cbs) > 0 || hasFuncParam(callee)) {
@@ -845,6 +910,7 @@ func (x *ctx) contractCall(st *state, fr *frame, con *Contract, callee *ssa.Func
 		}
 	}
 	x.applyModifies(st, pre, con, con.Mods, env)
+	writeCounted()
 	var ret val
 	if rt != nil {
 		if tup, ok := rt.(*types.Tuple); ok && tup.Len() == 0 {
@@ -892,6 +958,9 @@ func (x *ctx) contractCall(st *state, fr *frame, con *Contract, callee *ssa.Func
 			l2 := x.applyClosure(st, p.l1, nil, env)
 			l3 := x.applyClosure(st, l2, nil, env)
 			r := x.applyClosure(st, l3, p.cl.P3, renv)
+			if r.t.s == "false" {
+				x.fail("postcondition [%s] of %s evaluates to false at a call site in %s: the call could never return (contract or engine error)", p.cl.Tag(), con.Target, x.con.Target)
+			}
 			if x.spec > 0 {
 				st.define(r.t.s) // inside a specification the callee is pure: its ensures only describe the fresh result
 			} else {
@@ -1045,6 +1114,9 @@ func (x *ctx) contractCall(st *state, fr *frame, con *Contract, callee *ssa.Func
 			}
 			x.memo[pureKey] = append(x.memo[pureKey], memoEntry{v: ret, defs: defs, reads: reads})
 		}
+	}
+	if x.spec == 0 {
+		st.dcalls = append(st.dcalls, callRec{iface: con.Kind == "iface", target: con.Target, args: args, ret: ret})
 	}
 	outs := []outcome{{st: st, ret: ret}}
 	if con.Flags["may-panic"] {
@@ -1678,6 +1750,12 @@ func (x *ctx) loopEntry(st *state, fr *frame, b *ssa.BasicBlock, prev *ssa.Basic
 	for _, cl := range ls.Invariants {
 		st.assume(evalInv(st, cl, true))
 	}
+	// iter(E) in site assertions: the state at the start of the current iteration
+	if fr.top || (fr.fn.Parent() != nil && closureOf(fr.fn, x.fn)) {
+		snapIter := st.clone()
+		delete(snapIter.snaps, "iter")
+		st.snaps["iter"] = snapIter
+	}
 	// invariants over skolem variables hold for every value of them: kept for lazy instantiation at range keys
 	var snap *state
 	for _, cl := range ls.Invariants {
@@ -1757,6 +1835,11 @@ func (x *ctx) instantiateUniv(st *state, k term) {
 		return
 	}
 	facts := append(append([]*univFact(nil), x.reqFacts...), st.univ...)
+	if os.Getenv("GOVC_DEBUG_UNIV") != "" {
+		for _, f := range facts {
+			fmt.Fprintf(os.Stderr, "univ at %s: %s %v\n", k.s, f.id, f.vars)
+		}
+	}
 	for _, f := range facts {
 		for _, v := range f.vars {
 			sk, ok := x.skolem[v]
@@ -1801,6 +1884,21 @@ func (x *ctx) localByName(st *state, fr *frame, at *ssa.BasicBlock, name string)
 				}
 				if blk == at || blk.Dominates(at) {
 					best, isAddr = d.X, d.IsAddr
+				}
+			}
+		}
+	}
+	if !isAddr {
+		// an address-taken local (captured by a closure, or &x): its current content is in its cell; a debug reference to
+		// the value it was initialised with must not shadow later assignments
+		for _, blk := range fr.fn.Blocks {
+			for _, in := range blk.Instrs {
+				if al, ok := in.(*ssa.Alloc); ok && al.Comment == name {
+					if pv, bound := fr.regs[al]; bound && pv.ptr != nil && pv.ptr.cell > 0 && (blk == at || blk.Dominates(at)) {
+						if _, live := st.cells[pv.ptr.cell]; live {
+							return x.load(st, pv, deref(al.Type())), true
+						}
+					}
 				}
 			}
 		}
@@ -2392,7 +2490,17 @@ func (x *ctx) siteAssertions(st *state, fr *frame, b *ssa.BasicBlock, in *ssa.Ca
 	if j := strings.Index(name, "["); j > 0 {
 		name = name[:j] // instantiated generic: Set[K V]
 	}
+	// the evaluated operands of the call are available to the assertions as arg0, arg1, ... (arg0 is the receiver of a
+	// method call) when the contract declares variables of those names (`var arg2 bool`)
+	x.siteArgs = nil
+	if c.IsInvoke() {
+		x.siteArgs = append(x.siteArgs, x.get(fr, st, c.Value))
+	}
+	for _, a := range c.Args {
+		x.siteArgs = append(x.siteArgs, x.get(fr, st, a))
+	}
 	x.siteAssertionsAt(st, fr, b, name, false)
+	x.siteArgs = nil
 }
 
 // siteAssertionsAt evaluates the `site <name>:` assertions at the current point of fr. The pseudo-site `return`
@@ -2421,6 +2529,11 @@ func (x *ctx) siteAssertionsAt(st *state, fr *frame, b *ssa.BasicBlock, name str
 	}
 	penv := func(n string, t types.Type) (val, bool) { v, ok := x.params[n]; return v, ok }
 	lenv := func(n string, t types.Type) (val, bool) {
+		if strings.HasPrefix(n, "arg") && len(x.siteArgs) > 0 {
+			if k, err := strconv.Atoi(n[3:]); err == nil && k < len(x.siteArgs) {
+				return x.siteArgs[k], true
+			}
+		}
 		if v, ok := x.localByName(st, fr, b, n); ok {
 			return v, true
 		}
@@ -2452,7 +2565,24 @@ func (x *ctx) siteAssertionsAt(st *state, fr *frame, b *ssa.BasicBlock, name str
 		}
 		pc := x.pre.clone()
 		np := len(pc.pc)
+		saveOv := x.skolemOv
+		if len(x.siteArgs) > 0 {
+			// declared variables named arg<k> stand for the operands of this call
+			ov := map[string]val{}
+			for k, v := range saveOv {
+				ov[k] = v
+			}
+			for _, vd := range x.con.Vars {
+				if strings.HasPrefix(vd.Name, "arg") {
+					if k, err := strconv.Atoi(vd.Name[3:]); err == nil && k < len(x.siteArgs) {
+						ov[vd.Name] = x.siteArgs[k]
+					}
+				}
+			}
+			x.skolemOv = ov
+		}
 		l1 := x.clauseL1(pc, x.con, cl, penv)
+		x.skolemOv = saveOv
 		for id, v := range pc.cells {
 			if _, ok := st.cells[id]; !ok {
 				st.cells[id] = v
@@ -2461,6 +2591,31 @@ func (x *ctx) siteAssertionsAt(st *state, fr *frame, b *ssa.BasicBlock, name str
 		for _, f := range pc.pc[np:] {
 			if f.def {
 				st.define(f.t)
+			}
+		}
+		if cl.Levels == 3 {
+			// iter(...): the middle level is evaluated in the state at the start of the current loop iteration
+			snap := st.snaps["iter"]
+			if snap == nil {
+				x.fail("site %s in %s: iter(...) used outside a loop under contract", name, x.con.Target)
+			}
+			sc := snap.clone()
+			n0 := len(sc.pc)
+			for id, v := range pc.cells {
+				if _, ok := sc.cells[id]; !ok {
+					sc.cells[id] = v
+				}
+			}
+			l1 = x.applyClosure(sc, l1, cl.P3, lenv)
+			for _, f := range sc.pc[n0:] {
+				if f.def {
+					st.define(f.t)
+				}
+			}
+			for id, v := range sc.cells {
+				if _, ok := st.cells[id]; !ok {
+					st.cells[id] = v
+				}
 			}
 		}
 		g := x.applyClosure(st, l1, cl.P3, lenv)
@@ -2489,6 +2644,18 @@ func (x *ctx) localAnywhere(st *state, of *frame, name string) (val, bool) {
 					}
 				}
 				best, isAddr = d.X, d.IsAddr
+			}
+		}
+	}
+	// an address-taken local: its current content is in its cell (see localByName)
+	for _, blk := range of.fn.Blocks {
+		for _, in := range blk.Instrs {
+			if al, ok := in.(*ssa.Alloc); ok && al.Comment == name {
+				if pv, bound := of.regs[al]; bound && pv.ptr != nil && pv.ptr.cell > 0 {
+					if _, live := st.cells[pv.ptr.cell]; live {
+						return x.load(st, pv, deref(al.Type())), true
+					}
+				}
 			}
 		}
 	}
